@@ -9,6 +9,7 @@ import (
 	"os"
 	"strconv"
 	"strings"
+	"sync"
 
 	"gitee.com/xuesongtao/protoc-go-valid/valid"
 )
@@ -54,6 +55,71 @@ type lruDriver struct {
 	cb [][2]string
 }
 
+// Key codecs: the model's abstract keys k1, k2, ... are concretised into Go keys of different dynamic types
+// (VERIF_LRU_KEYS = str | int | mixed), because the cache takes interface{} keys: nil, zero values of several
+// types (which differ as interface keys), structs and arrays are all legitimate, distinct keys.
+type lruStructKey struct {
+	A int
+	B string
+}
+
+var (
+	lruCodec    = os.Getenv("VERIF_LRU_KEYS")
+	lruKeyNames sync.Map // concrete key -> abstract name
+)
+
+func lruKeyNum(k string) int {
+	if len(k) > 1 && k[0] == 'k' {
+		if n, err := strconv.Atoi(k[1:]); err == nil {
+			return n
+		}
+	}
+	return 0
+}
+
+func lruKey(k string) interface{} {
+	var key interface{} = k
+	n := lruKeyNum(k)
+	switch lruCodec {
+	case "int":
+		if n > 0 {
+			key = n
+		} else {
+			key = -1
+		}
+	case "mixed":
+		switch n {
+		case 1:
+			key = nil
+		case 2:
+			key = 0
+		case 3:
+			key = ""
+		case 4:
+			key = false
+		case 5:
+			key = float64(0)
+		case 6:
+			key = lruStructKey{}
+		case 7:
+			key = [1]int{0}
+		case 8:
+			key = int8(0)
+		default:
+			key = lruStructKey{A: n, B: k}
+		}
+	}
+	lruKeyNames.Store(key, k)
+	return key
+}
+
+func lruKeyName(key interface{}) string {
+	if n, ok := lruKeyNames.Load(key); ok {
+		return n.(string)
+	}
+	return fmt.Sprintf("<unknown key %#v>", key)
+}
+
 func encVal(k, v string) string { return k + "=" + v }
 
 func decVal(s string) (k, v string, ok bool) {
@@ -67,12 +133,8 @@ func decVal(s string) (k, v string, ok bool) {
 func newLRUDriver(cap int) *lruDriver {
 	d := &lruDriver{c: valid.NewLRU(cap)}
 	d.c.SetDelCallBackFn(func(key, value interface{}) {
-		ks, _ := key.(string)
-		if key == nil {
-			ks = "<nil>"
-		}
 		_, v, _ := decVal(fmt.Sprint(value))
-		d.cb = append(d.cb, [2]string{ks, v})
+		d.cb = append(d.cb, [2]string{lruKeyName(key), v})
 	})
 	return d
 }
@@ -107,10 +169,10 @@ func (d *lruDriver) do(op, k, v string) (o lruObs) {
 		o.Res = "none"
 		switch op {
 		case "Store":
-			d.c.Store(k, encVal(k, v))
+			d.c.Store(lruKey(k), encVal(k, v))
 			o.Ok = true
 		case "Load":
-			val, hit := d.c.Load(k)
+			val, hit := d.c.Load(lruKey(k))
 			o.Ok = hit
 			if hit {
 				kk, vv, good := decVal(fmt.Sprint(val))
@@ -123,7 +185,7 @@ func (d *lruDriver) do(op, k, v string) (o lruObs) {
 				o.Res = "nonnil-on-miss"
 			}
 		case "Delete":
-			d.c.Delete(k)
+			d.c.Delete(lruKey(k))
 			o.Ok = true
 		case "Len":
 			o.N = d.c.Len()
@@ -145,13 +207,13 @@ func (d *lruDriver) do(op, k, v string) (o lruObs) {
 func driveTo(st lruState) (*lruDriver, error) {
 	d := newLRUDriver(st.Cap)
 	for i := 0; i < st.Dels; i++ {
-		d.c.Store("scratch", encVal("scratch", "x"))
+		d.c.Store(lruKey("scratch"), encVal("scratch", "x"))
 		if st.Cap > 0 {
-			d.c.Delete("scratch")
+			d.c.Delete(lruKey("scratch"))
 		}
 	}
 	for i := len(st.Dump) - 1; i >= 0; i-- {
-		d.c.Store(st.Dump[i][0], encVal(st.Dump[i][0], st.Dump[i][1]))
+		d.c.Store(lruKey(st.Dump[i][0]), encVal(st.Dump[i][0], st.Dump[i][1]))
 	}
 	got, _ := d.dump()
 	if !eqPairs(got, st.Dump) {
